@@ -93,6 +93,8 @@ BitsValues(T, cap) ==
 BoundarySizes(c) == {n \in {30, 31, 62, 63, 126, 127, 128, 129} : Sat(c, I(n), BI(0), BMax)}
 OctetsValues(T, cap) ==
   UNION {{Cyc(<<0, 255, 1, 128, 127>>, n, 0), Cyc(<<171>>, n, 0)} : n \in SizeSamples(T.size, cap)}
+  \* contents that look like an end-of-contents marker / like a high tag
+  \cup UNION {{Cyc(<<0>>, n, 0), Cyc(<<255>>, n, 0)} : n \in SizeSamples(T.size, cap) \cap {2, 3, 8}}
   \cup (IF T.size.op = "none" THEN {Cyc(<<171, 0, 255>>, n, 0) : n \in BoundarySizes(T.size)} ELSE {})
 
 OidValues == { <<1,2>>, <<0,0>>, <<0,39>>, <<1,39,127,128>>, <<2,999,3>>, <<1,2,840,113549>>,
